@@ -1,8 +1,11 @@
-(* Extraction of the C12 model (ExtChain/Model.v) and of the specification
-   oracle (RFC 8200 order + wire formats: View.rfc_order_bytes) to OCaml.
+(* Extraction of the C12 model (ExtChain/Model.v, ExtChain/ReadModel.v) and of the
+   specification oracles (RFC 8200 order + wire formats: View.rfc_order_bytes; the
+   reference walk over arbitrary bytes: WalkSpec.ref_walk with its readings
+   WalkView.strict_of_walk / lax_of_walk / normalised, ReadView.read_of_walk) to OCaml.
    ExtrOcamlBasic only: bool, option, list, prod, unit map to OCaml's;
    N / positive / nat stay the extracted inductive types. *)
-From EP Require Import Base.Bytes ExtChain.Spec ExtChain.Model ExtChain.View.
+From EP Require Import Base.Bytes IoFault.Spec IoFault.Model ExtChain.Spec ExtChain.Model ExtChain.View
+  ExtChain.WalkSpec ExtChain.WalkView ExtChain.ReadModel ExtChain.ReadView.
 From Coq Require Import Extraction ExtrOcamlBasic.
 Extraction Language OCaml.
 Extraction "m_c12.ml"
@@ -12,4 +15,8 @@ Extraction "m_c12.ml"
   from_slice4 from_slice_lax4 write4 next_header4 header_len4 set_next_headers4
   ip_header_len ip_next_header ip_set_next_headers net_try_set_next_headers net_of_ip
   is_ext_number is_ext_number_v4 rfc_order_bytes rfc_order_bytes4
-  ETHER_TYPE_IPV4 ETHER_TYPE_IPV6.
+  ETHER_TYPE_IPV4 ETHER_TYPE_IPV6
+  ref_walk ref_walk4 consumed strict_of_walk lax_of_walk strict4_of_walk lax4_of_walk
+  struct_of_chain struct4_of_chain normalised
+  read6 read4 mk_st view lr_new read_of_walk read4_of_walk
+  LS_IPV4_TOTAL LS_IPV6_PAYLOAD L_IPV4H L_IPV6H L_AUTH L_IPV6EXT L_IPV6FRAG.
